@@ -20,6 +20,7 @@ Representation (the same as the hand model, see Model/Cache.v):
   * `arr[i] = x` = set_nth (N.to_nat i) x arr;  `[x; CACHE_SIZE]` = repeat x (N.to_nat CACHE_SIZE);
   * `for x in arr.iter().flatten() { body }` = a local `fix loop` over the list skipping None (the body may `return`);
   * `==` on Option<f32> = Num.opt_eqb (the derived PartialEq), `abs` = fabs, `f32::EPSILON` = epsilon, `<` = ltb, `-` = sub;
+  * `entry.m(args)` for a `fn m(&self, ..)` of an `impl<T> CacheEntry<T>` block with a side-effect free body is inlined;
   * early `return`s and `if` / `match` statements are translated by continuation (the rest of the body is copied into each branch).
 
 The #[cfg(taffy_verif)] exact-key test hook (statements `if crate::verif_hooks::exact_key() .. { .. }`, `self.exact.<m>(..)`, the
@@ -154,7 +155,8 @@ class Body:
             self.st0 = {f: '(%s %s)' % (c, s) for f, c in FIELD_COQ.items()}
         self.hooks = []
         self.loops = 0
-        self.helpers = None     # (tokens of cache.rs) for nothing else: reserved
+        self.helpers = None     # tokens of cache.rs: where helper methods of CacheEntry are looked up
+        self.inlined = {}
 
     # ------------------------------------------------------------------ results
     def record(self, st):
@@ -328,6 +330,8 @@ class Body:
                 if isinstance(body.tm, dict):
                     raise Refuse('map to a Size pair')
                 return V(OPT(body.ty), '(match %s with Some %s => Some %s | None => None end)' % (x.tm, b, body.tm))
+            if isinstance(t, tuple) and t[0] == 'entry' and self.helpers is not None:
+                return self.inline_entry_method(x, name, [self.ex(a, env, st) for a in rargs])
             raise Refuse('%s: method .%s on a value of type %r' % (self.fname, name, t))
         if k == 'struct':
             segs, fs, base = e[1], e[2], e[3]
@@ -371,6 +375,34 @@ class Body:
                 raise Refuse('matches! binding variables')
             return V(BOOL, '(match %s with %s => true | _ => false end)' % (v.tm, ps))
         raise Refuse('%s: expression of kind %s' % (self.fname, k))
+
+    def inline_entry_method(self, recv, name, args):
+        """`entry.name(args)` where `fn name(&self, ..)` is defined in an `impl<T> CacheEntry<T> { .. }` block of cache.rs and
+        its body is a side-effect free value block: the body, with self := the entry and the parameters := the arguments"""
+        toks = self.helpers
+        blocks = [i for i in range(len(toks)) if seq_at(toks, i, ['impl', '<', 'T', '>', 'CacheEntry', '<', 'T', '>', '{'])]
+        for i in blocks:
+            blk = toks[i + 8:match_brace(toks, i + 8) + 1]
+            try:
+                params, body, _ = find_fn(blk, name)
+            except ParseError:
+                continue
+            ps = params_of(params)
+            if not ps or ps[0] != ('self', '&self') or len(ps) != len(args) + 1:
+                raise Refuse('helper CacheEntry::%s: parameter list' % name)
+            env = {'self': recv}
+            for (n, ty), a in zip(ps[1:], args):
+                if rtype(ty) != a.ty:
+                    raise Refuse('helper CacheEntry::%s: argument %s has type %r' % (name, n, a.ty))
+                env[n] = a
+            self.inlined[name] = norm_tokens(params) + ' => ' + norm_tokens(body)
+            saved = self.self_cache
+            self.self_cache = False           # inside the helper `self` is the entry, not the cache
+            try:
+                return self.pure(parse_block(body), env, None)
+            finally:
+                self.self_cache = saved
+        raise Refuse('%s: method .%s on a cache entry (no such fn in an `impl<T> CacheEntry<T>` block)' % (self.fname, name))
 
     # ------------------------------------------------------------------ patterns
     def pattern(self, p, ty):
@@ -679,6 +711,7 @@ def generate(repo):
             raise Refuse('%s: parameters %r, expected %r' % (sig, got, ptypes))
         b = Body(sig, kind, ret_ty, self_cache=(ptypes[:1] in ([('self', '&self')], [('self', '&mutself')])), is_new=is_new)
         b.clear_states = [v for v, _ in cs]
+        b.helpers = toks if toks_ is meth else None
         b.cur_attrs = []
         env = {}
         binders = []
@@ -711,6 +744,8 @@ def generate(repo):
         w('  (* %s *)' % sig)
         w('  Definition %s %s : %s :=\n    %s.' % (coqname, ' '.join(binders), res, term))
         hooks.extend('%s: %s' % (sig, h) for h in b.hooks)
+        for hn, ht in b.inlined.items():
+            fps['CacheEntry::%s (inlined)' % hn] = ht
 
     emit('is_roughly_equal', 'gen_is_roughly_equal', av_toks, 'AvailableSpace::is_roughly_equal', 'pure', BOOL,
          [('self', 'self'), AVAIL])
